@@ -430,6 +430,24 @@ def fs_primitive_purity_rule(ctx, res, rule: str) -> None:
                 "so what this extra call creates or removes stays behind after an undo or a rolled-back composite change (stray folders/files)",
                 function=m.qualname, effects=[r for r, _ in effects])
     res.floor(rule, "file-system primitives", n, 5)
+    # ... and the change layer itself reaches the disk through those commands only: what `_ResourceOperations` / a Change class does with
+    # os / shutil directly (a destination folder created on the side, ...) has no inverse in undo and in the rollback of a composite
+    mutators = ("mkdir", "makedirs", "remove", "unlink", "rmdir", "removedirs", "rename", "renames", "replace", "move", "rmtree",
+                "copy", "copy2", "copyfile", "copytree", "truncate", "chmod", "symlink", "link")
+    k = 0
+    for f in sorted(idx.functions.values(), key=lambda f: f.qualname):
+        if f.unit.modname != "rope.base.change":
+            continue
+        for c in calls_in(f.node):
+            d = dotted(c.func)
+            r = idx.resolve_dotted(f.unit.modname, d) if d else None
+            if r and r.startswith(("os.", "shutil.")) and r.split(".")[-1] in mutators:
+                k += 1
+                res.fail(rule, f"{f.qualname.split('.', 3)[-1]}|disk-only-through-the-commands#{k}", f"{f.unit.rel}:{c.lineno}",
+                         f"{f.qualname.split('.', 3)[-1]} calls {r} itself: undo and the rollback of a composite replay the inverse of the file-system COMMAND only, so what this call "
+                         "creates or removes stays behind -- after undo the tree is not the tree from before the change", function=f.qualname)
+    res.add(rule, "change-layer|disk-only-through-the-commands", k == 0, "rope/base/change.py:1",
+            "the change layer calls no os / shutil mutator itself" if k == 0 else f"{k} direct os / shutil mutation(s) in the change layer")
 
 
 def soa_observer_rule(ctx, res, rule: str) -> None:
@@ -2376,3 +2394,235 @@ def desugar_next(fn_node: ast.AST) -> ast.AST:
     new.body = rewrite(fn_node.body)
     ast.fix_missing_locations(new)
     return new
+
+
+# ---------------------------------------------------------------------------------------------------------------------
+# an offset clamped to the text is clamped to its last index when it is used as an index
+
+def clamped_offset_rule(ctx, res, rule: str, cls_qual: str = "rope.base.worder._RealFinder", text_attr: str = "code") -> None:
+    """`min(<offset>, len(self.code))` is a valid SLICE bound and one past the last valid INDEX.  In the word finder a value clamped that
+    way is never handed to a method that reads `self.code[<that parameter>]` (directly or through another method of the finder):
+    for a statement that ends the text without a final newline the clamp is reached, and the read raises IndexError --
+    go-to-definition or Rename on `x` in a module ending with `from m import x`."""
+    idx = ctx.idx
+    cls = idx.need_class(cls_qual)
+    # which (method, parameter position) is used as an index into the text: fixpoint over the finder's methods
+    indexers: Set[Tuple[str, int]] = set()
+    changed = True
+    while changed:
+        changed = False
+        for m in cls.methods.values():
+            ps = param_names(m.node)[1:]
+            for j, p in enumerate(ps):
+                if (m.name, j) in indexers:
+                    continue
+                hit = False
+                # the parameter and the locals that start as a copy of it (`current_offset = offset`)
+                names = {p} | {t.id for x in walk_local(m.node) if isinstance(x, ast.Assign) and isinstance(x.value, ast.Name) and x.value.id == p
+                               for t in x.targets if isinstance(t, ast.Name)}
+                for x in walk_local(m.node):
+                    if isinstance(x, ast.Subscript) and is_self_attr(x.value, text_attr) and not isinstance(x.slice, ast.Slice) \
+                            and isinstance(x.slice, ast.Name) and x.slice.id in names:
+                        hit = True
+                    if isinstance(x, ast.Call) and is_self_attr(x.func):
+                        for k, a in enumerate(x.args):
+                            if isinstance(a, ast.Name) and a.id in names and (x.func.attr, k) in indexers:
+                                hit = True
+                if hit:
+                    indexers.add((m.name, j))
+                    changed = True
+    if len(indexers) < 2:
+        raise AnalysisError(f"anchor={cls_qual}: methods that index self.{text_attr} by a parameter not found")
+    n = 0
+    for m in cls.methods.values():
+        clamped = {}
+        for x in walk_local(m.node):
+            if isinstance(x, ast.Assign) and len(x.targets) == 1 and isinstance(x.targets[0], ast.Name) and isinstance(x.value, ast.Call) and call_name(x.value) == "min" \
+                    and any(isinstance(a, ast.Call) and call_name(a) == "len" and a.args and is_self_attr(a.args[0], text_attr) for a in x.value.args):
+                clamped[x.targets[0].id] = x
+        for x in walk_local(m.node):
+            if isinstance(x, ast.Call) and is_self_attr(x.func):
+                for k, a in enumerate(x.args):
+                    if isinstance(a, ast.Name) and a.id in clamped and (x.func.attr, k) in indexers:
+                        n += 1
+                        res.fail(rule, f"_RealFinder.{m.name}|clamped-to-the-last-index#{n}", f"{m.unit.rel}:{x.lineno}",
+                                 f"`{ast.unparse(clamped[a.id])}` clamps to the LENGTH of the text and `{ast.unparse(x)[:60]}` reads the character at that offset: when the "
+                                 "statement ends the text without a final newline the clamp is reached and the read raises IndexError -- go-to-definition, get_doc or Rename on "
+                                 "`x` in a module whose last line is `from m import x`", function=m.qualname)
+    res.analysed[f"{rule}:indexing methods"] = sorted(f"{a}#{b}" for a, b in indexers)
+    res.add(rule, "_RealFinder|offsets-clamped-to-the-length-are-not-used-as-indices", n == 0, cls.where,
+            f"{len(indexers)} (method, parameter) pairs index the text; " + (f"{n} call(s) hand them an offset clamped to len(self.{text_attr})" if n else f"none is handed an offset clamped to len(self.{text_attr})"))
+
+
+# ---------------------------------------------------------------------------------------------------------------------
+# a refactoring over many files is computed for all of them or refused
+
+def _resource_loops(fn_node: ast.AST):
+    """for-loops over the files a refactoring has to look at: `for f in resources`, `self.resources`, `...get_python_files()`, `get_files()`"""
+    out = []
+    for lp in walk_local(fn_node):
+        if not isinstance(lp, ast.For):
+            continue
+        it = _subst_single_locals(fn_node, lp.iter)
+        names = {y.id for y in ast.walk(it) if isinstance(y, ast.Name)} | {y.attr for y in ast.walk(it) if isinstance(y, ast.Attribute)}
+        if names & {"resources", "get_python_files", "get_files", "python_files"}:
+            out.append(lp)
+    return sorted(out, key=lambda l: (l.lineno, l.col_offset))
+
+
+def per_file_no_skip_rule(ctx, res, rule: str, modules) -> None:
+    """A refactoring that has to rewrite several files is right only as a whole: the definition in one file, the calls / imports /
+    references in the others.  The loop that computes the per-file changes therefore does not survive an error in one file: inside
+    `for <file> in resources` (and in the private helpers the loop body calls) there is no `try` whose handler ends without
+    raising -- a file that "could not be handled" and is left alone keeps the OLD calls while the definition changes."""
+    idx = ctx.idx
+    probe = ast.parse("def g(self, resources):\n    for f in resources:\n        try:\n            x = h(f)\n        except SyntaxError:\n            x = None\n"
+                      "    for f in resources:\n        try:\n            h(f)\n        except KeyError as e:\n            raise Refused(e)\n").body[0]
+    lps = _resource_loops(probe)
+    if len(lps) != 2 or [bool(_swallowing_handlers(lp)) for lp in lps] != [True, False]:
+        raise AnalysisError("per-file loop detector self-check failed")
+    n = k = 0
+    for f in sorted(idx.functions.values(), key=lambda f: f.qualname):
+        if f.unit.modname not in modules or f.parent is not None:
+            continue
+        node = inlined(idx, f)
+        for lp in _resource_loops(node):
+            n += 1
+            for h in _swallowing_handlers(lp):
+                k += 1
+                res.fail(rule, f"{f.qualname.split('.', 2)[-1]}|no-file-is-skipped-on-an-error#{k}", f"{f.unit.rel}:{h.lineno}",
+                         f"inside the loop over the files of the refactoring, `except {ast.unparse(h.type) if h.type else ''}:` ends without raising: a file in which the computation "
+                         "fails (a call spread over lines that the call parser cannot read, an unresolvable import, ...) is silently left as it is while the definition and every "
+                         "other file are rewritten -- its calls now bind other parameters, or name something that no longer exists", function=f.qualname)
+    res.analysed[f"{rule}:per-file loops"] = n
+    if n == 0:
+        raise AnalysisError(f"{rule}: no loop over the files of a refactoring found in {modules}")
+    res.add(rule, "per-file-loops|an-error-in-one-file-stops-the-refactoring", k == 0, modules[0].replace(".", "/") + ".py:1",
+            f"{n} loop(s) over the files of a refactoring: " + (f"{k} handler(s) inside them swallow an error" if k else "no handler inside them swallows an error"), modules=list(modules))
+
+
+def _swallowing_handlers(loop: ast.For):
+    out = []
+    for st in loop.body:
+        for t in [st, *walk_local(st)]:
+            if isinstance(t, ast.Try):
+                for h in t.handlers:
+                    if not any(isinstance(x, ast.Raise) for s_ in h.body for x in [s_, *walk_local(s_)]):
+                        out.append(h)
+    return out
+
+
+# ---------------------------------------------------------------------------------------------------------------------
+# code text is not whitespace-normalised
+
+def _ws_normalisations(tree: ast.AST):
+    """`<sep>.join(<text>.split())` -- every run of blanks, tabs and line breaks becomes one separator -- and `re.sub(r"\\s+", ...)`"""
+    out = []
+    for c in ast.walk(tree):
+        if isinstance(c, ast.Call) and isinstance(c.func, ast.Attribute) and c.func.attr == "join" and len(c.args) == 1 and isinstance(c.args[0], ast.Call) \
+                and isinstance(c.args[0].func, ast.Attribute) and c.args[0].func.attr == "split" and not c.args[0].args and not c.args[0].keywords:
+            out.append(c)
+        if isinstance(c, ast.Call) and call_name(c) == "sub" and c.args and isinstance(c.args[0], ast.Constant) and isinstance(c.args[0].value, str) and "\\s" in c.args[0].value:
+            out.append(c)
+    return out
+
+
+def no_whitespace_normalisation_rule(ctx, res, rule: str, modules) -> None:
+    """Program text that a refactoring moves from one place to another (an argument into the inlined body, an expression into a new
+    variable, a value into a setter call) is moved AS IT IS: blanks inside a string literal are data.  `" ".join(text.split())`
+    (and `re.sub(r"\\s+", " ", text)`) collapse every run of whitespace, also the two spaces in `"12  items"`.  In the anchored
+    modules the result of such a normalisation is only ever COMPARED (`... in ["def", "class"]`), never emitted."""
+    idx = ctx.idx
+    probe = ast.parse("def f(a, b):\n    w = ' '.join(a.split())\n    if w in ['def']:\n        return 1\n    return 'x = ' + ' '.join(b.split())\n")
+    if len(_ws_normalisations(probe)) != 2:
+        raise AnalysisError("whitespace-normalisation detector self-check failed")
+    n = k = 0
+    for f in sorted(idx.functions.values(), key=lambda f: f.qualname):
+        if f.unit.modname not in modules or f.parent is not None:
+            continue
+        hits = _ws_normalisations(f.node)
+        if not hits:
+            continue
+        parents = {}
+        for p_ in ast.walk(f.node):
+            for ch in ast.iter_child_nodes(p_):
+                parents[id(ch)] = p_
+        for c in hits:
+            n += 1
+            p_ = parents.get(id(c))
+            only_compared = isinstance(p_, ast.Compare)
+            if isinstance(p_, ast.Assign) and len(p_.targets) == 1 and isinstance(p_.targets[0], ast.Name):
+                v = p_.targets[0].id
+                uses = [y for y in ast.walk(f.node) if isinstance(y, ast.Name) and y.id == v and isinstance(y.ctx, ast.Load)]
+                only_compared = bool(uses) and all(isinstance(parents.get(id(y)), ast.Compare) for y in uses)
+            if not only_compared:
+                k += 1
+            res.add(rule, f"{f.qualname.split('.', 2)[-1]}|normalised-text-is-only-compared#{n}", only_compared, f"{f.unit.rel}:{c.lineno}",
+                    "the whitespace-normalised text is only compared with keywords" if only_compared else
+                    f"`{ast.unparse(c)[:60]}` collapses every run of whitespace of program text that is then written into the result: blanks inside a string literal are data -- an "
+                    "argument `'12  '` + newline + `'items'` spread over two lines is inlined as `'12 ' 'items'`, and the program prints something else", function=f.qualname)
+    res.add(rule, "modules|program-text-is-not-whitespace-normalised", k == 0, modules[0].replace(".", "/") + ".py:1",
+            f"{n} whitespace normalisation(s) in the anchored modules, " + (f"{k} of them emitted" if k else "none emitted"), modules=list(modules))
+
+
+# ---------------------------------------------------------------------------------------------------------------------
+# strip(chars) removes a SET of characters, not a prefix or suffix
+
+def _affix_strips(tree: ast.AST):
+    out = []
+    for c in ast.walk(tree):
+        if isinstance(c, ast.Call) and isinstance(c.func, ast.Attribute) and c.func.attr in ("strip", "lstrip", "rstrip") and len(c.args) == 1 \
+                and isinstance(c.args[0], ast.Constant) and isinstance(c.args[0].value, (str, bytes)):
+            v = c.args[0].value
+            v = v.decode("latin-1") if isinstance(v, bytes) else v
+            if len(v) >= 2 and sum(ch.isalnum() or ch == "_" for ch in v) >= 2:
+                out.append(c)
+    return out
+
+
+def affix_strip_rule(ctx, res, rule: str, prefix: str = "rope.") -> None:
+    """`name.rstrip(".py")` does not remove the extension: it removes every trailing `.`, `p` and `y` -- `inventory.py` becomes
+    `inventor`, `copy.py` becomes `co`.  A strip whose argument spells a word or an extension (two or more letters / digits) is a
+    prefix or suffix removal written with the wrong method; module names, attribute names and keywords that end in one of those
+    letters come out shorter and no longer compare equal.  None occurs in rope (sets of punctuation such as `rstrip("/\\\\")` are what
+    the method is for); the detector is checked on a fixed example at every run."""
+    idx = ctx.idx
+    probe = ast.parse("a = n.rstrip('.py')\nb = p.rstrip('/\\\\')\nc = s.lstrip('self.')\nd = t.strip(':')\n")
+    if [ast.unparse(c.args[0]) for c in _affix_strips(probe)] != ["'.py'", "'self.'"]:
+        raise AnalysisError("affix-strip detector self-check failed")
+    n = k = 0
+    for u in sorted(idx.units.values(), key=lambda u: u.modname):
+        if not u.modname.startswith(prefix):
+            continue
+        n += 1
+        for c in _affix_strips(u.tree):
+            k += 1
+            fn = next((f for f in idx.functions.values() if f.unit is u and f.parent is None and f.node.lineno <= c.lineno <= (f.node.end_lineno or c.lineno)), None)
+            name = fn.qualname.split(".", 2)[-1] if fn else u.modname
+            res.fail(rule, f"{name}|strip-is-no-affix-removal#{k}", f"{u.rel}:{c.lineno}",
+                     f"`{ast.unparse(c)[:60]}` strips the CHARACTERS {sorted(set(c.args[0].value if isinstance(c.args[0].value, str) else c.args[0].value.decode('latin-1')))} from the end(s), "
+                     "not the affix: a module called `inventory.py` / `copy.py` / `setup.py` comes out as `inventor` / `co` / `setu`, the name no longer compares equal to the word "
+                     "being renamed, and the references are rewritten while the file stays (ModuleNotFoundError)", function=fn.qualname if fn else None)
+    res.add(rule, "modules|no-affix-removed-with-strip", k == 0, "rope/", f"{n} modules: " + (f"{k} strip call(s) whose argument spells an affix" if k else "no strip call whose argument spells an affix"))
+
+
+def plain_guards(cfg, node_id: int):
+    """cfg.guards(node) with a leading `not` folded into the polarity: (`not p`, False) is (p, True)"""
+    out = []
+    for t, pol in cfg.guards(node_id):
+        while isinstance(t, ast.UnaryOp) and isinstance(t.op, ast.Not):
+            t, pol = t.operand, not pol
+        out.append((t, pol))
+    return out
+
+
+def flag_sources(cfg, fn_node, name: str):
+    """For a local that is assigned in several places and then tested (`ok = False` ... `ok = a == b` ... `if ok:` -- what a predicate with
+    early returns becomes when it is read in place): the expressions that decide it -- the values assigned and the tests those
+    assignments stand under."""
+    out = []
+    for nd in cfg.nodes:
+        if nd.kind == "stmt" and isinstance(nd.ast, ast.Assign) and any(isinstance(t, ast.Name) and t.id == name for t in nd.ast.targets):
+            out.append(nd.ast.value)
+            out += [t for t, _ in plain_guards(cfg, nd.id)]
+    return out
